@@ -132,6 +132,7 @@ theorem flatten_be32_length (xs : List (BitVec 32)) : ((xs.map be32).flatten).le
 /-! ### parameters -/
 
 theorem fits_iff (n : Nat) : fits n = true ↔ n + 4 < 65536 := by simp [fits]
+theorem fitsV_iff (n : Nat) : fitsV n = true ↔ n < 65536 := by simp [fitsV]
 
 theorem encParam_eq (p : Param) : ∃ v, encParam p = paramHeaderMarshal (ptOf p) v := by
   cases p <;> exact ⟨_, rfl⟩
